@@ -38,7 +38,11 @@ impl InferenceRule for MappingAccessRule {
                 return Ok(());
             };
 
-            let p = projection.unwrap_or(0);
+            // The projection comes from a constant in the bytecode, so its offset in bits may
+            // not be representable; such an access tells us nothing about the mapping's value
+            let Some(offset_bits) = projection.unwrap_or(0).checked_mul(WORD_SIZE_BITS) else {
+                return Ok(());
+            };
             let key_tv = state.var_unchecked(key);
             let original_val_ty = state.var_unchecked(value);
             let val_ty = unsafe { state.allocate_ty_var() };
@@ -47,7 +51,7 @@ impl InferenceRule for MappingAccessRule {
                 val_ty,
                 TE::packed_of(vec![Span::new(
                     original_val_ty,
-                    p * WORD_SIZE_BITS,
+                    offset_bits,
                     WORD_SIZE_BITS,
                 )]),
             );
